@@ -124,6 +124,14 @@ func vFamily(id, n int) []string {
 		for i := 0; i < n; i++ {
 			ks = append(ks, string([]byte{byte(0x10 + (i/121)%11*0x15), byte(0x10 + (i/11)%11*0x15), byte(0x10 + i%11*0x15)}))
 		}
+	case 4: // a shared run in front of a 257-bit node: 16 keys P + distinct byte
+		p := ""
+		for i := 0; i < 64; i++ {
+			p += string([]byte{byte('a' + i%5)})
+		}
+		for i := 0; i < n; i++ {
+			ks = append(ks, p+string([]byte{byte(0x10 + (i%16)*0x0f), byte('a' + i/16)}))
+		}
 	case 3: // many distinct label bitmaps: group g has children selected by the bits of g
 		g := 1
 		for len(ks) < n {
